@@ -304,6 +304,16 @@ WITNESSES = [
      {"u": None, "xs": []}),
     ("field-alias-priority", rec("R", [fld("a", "int")]), rec("R", [fld("b", "int", aliases=["a"]), fld("a", "long")]), {"a": 1}),
     ("dict-prim", {"type": "int"}, {"type": "long", "logicalType": "zzz"}, 5),
+    # unknown logicalType annotations on array / map / named-type nodes (writer and reader side, inline and by reference)
+    ("annotated-nodes",
+     {"type": "record", "name": "R", "logicalType": "x-note", "fields": [
+         fld("xs", {"type": "array", "logicalType": "x-unit", "items": {"type": "fixed", "name": "F", "size": 2, "logicalType": "x-note"}}),
+         fld("n", "int"), fld("f", "F"), fld("e", {"type": "enum", "name": "E", "symbols": ["A", "B"], "logicalType": "x-note"})]},
+     {"type": "record", "name": "R", "logicalType": "custom-lt", "fields": [
+         fld("n", "long"), fld("xs", {"type": "array", "items": {"type": "fixed", "name": "F", "size": 2}, "logicalType": "x-note"}),
+         fld("f", "F"), fld("e", ["null", {"type": "enum", "name": "E", "symbols": ["A"], "default": "A", "logicalType": "x-unit"}]),
+         fld("m", {"type": "map", "values": "int", "logicalType": "x-note"}, default={})]},
+     {"xs": [b"\x01\x02", b"\x03\x04"], "n": 7, "f": b"\x05\x06", "e": "B"}),
 ]
 
 
@@ -320,6 +330,8 @@ def gen_writer(rng):
             evolve.add_writer_aliases(raw, rng)
         if rng.random() < 0.3:
             evolve.add_writer_enum_defaults(raw, rng)
+        if rng.random() < 0.2:
+            evolve.add_writer_annotations(raw, rng)
         named = {}
         try:
             parsed = fastavro.parse_schema(copy.deepcopy(raw), named)
@@ -744,6 +756,23 @@ def has_ref(s):
     return False
 
 
+def has_annotated_node(s):
+    """a logicalType annotation on an array / map / named-type node"""
+    if isinstance(s, list):
+        return any(has_annotated_node(b) for b in s)
+    if isinstance(s, dict):
+        t = s.get("type")
+        if t in ("record", "error", "enum", "fixed", "array", "map") and "logicalType" in s:
+            return True
+        if t in ("record", "error"):
+            return any(has_annotated_node(f["type"]) for f in s.get("fields", []))
+        if t == "array":
+            return has_annotated_node(s["items"])
+        if t == "map":
+            return has_annotated_node(s["values"])
+    return False
+
+
 def kind_differs(c):
     """a named type of the same unqualified name (or aliased to it) is of another kind in the reader"""
     def kinds(s, out):
@@ -873,6 +902,9 @@ def compare(ctx, c, route, res, mtext, with_rest, corr="corr:resolve"):
         ctx.notes["outside_zone_reasons"][zone] = ctx.notes["outside_zone_reasons"].get(zone, 0) + 1
     if has_opts:
         ctx.notes["cases_with_reader_options"] = ctx.notes.get("cases_with_reader_options", 0) + 1
+    if has_annotated_node(c.w_raw) or has_annotated_node(c.r_raw):
+        key = "cases_with_annotated_nodes(%s a proved zone)" % ("inside" if zone in ("Z1", "Z2", "Z2D") else "outside")
+        ctx.notes[key] = ctx.notes.get(key, 0) + 1
     if zone in ("Z1", "Z2", "Z2D") and default_opts:
         key = {"Z1": "cases_inside_agreement_zone", "Z2": "cases_inside_agreement_zone_with_references(every depth)",
                "Z2D": "cases_inside_agreement_zone_with_references(depth<=16 only)"}[zone]
